@@ -186,7 +186,7 @@ func (d *Generator) SetGradient(shape GradientShape, spread GradientSpread, stop
 		return TooManyGradientStops
 	}
 	nStops := uint8(len(stops))
-	if x, y := d.CSel(), d.CSel()+64; (cBase <= x && x < cBase+nStops) || (cBase <= y && y < cBase+nStops) {
+	if x, y := d.CSel()&0x3f, d.CSel()&0x3f+64; (cBase <= x && x < cBase+nStops) || (cBase <= y && y < cBase+nStops) {
 		return CSELUsedAsBothGradientAndStop
 	}
 
